@@ -66,7 +66,7 @@ func expect(d RpDelivered) (answered bool, rid uint16, body []byte, bodyKnown bo
 	case 0x0100:
 		return true, rid, append(append(be16(f.Serial), 0), []byte(RpPhoneString(f.BCD))...), true
 	case 0x0801:
-		if len(f.Body) >= 36 {
+		if len(f.Body) >= 4 { // under 36 bytes the code answers with a stale id: known finding C06/0801-short-body
 			return true, rid, f.Body[:4], true
 		}
 		return true, rid, nil, false
@@ -109,15 +109,30 @@ func direct(c *Ctx, mode, req string, items []RpItem, r *RpResult) {
 		what      string
 		term      []byte
 		cb        bool
+		short0801 bool
 	}
 	var wf []wantFrame
 	var wantRd []string
 	var join *RpFrame
+	var absorbed []string
 	for _, it := range items {
 		if it.Kind == 'C' {
 			if join != nil {
 				wf = append(wf, wantFrame{rid: it.Cmd, ver: join.Ver, bcd: join.BCD, body: it.Body, bodyKnown: true, what: fmt.Sprintf("command %04x", it.Cmd)})
 			}
+			continue
+		}
+		if it.Kind == 'Q' && join != nil {
+			// a 0x9003 left outstanding, then the terminal's 0x1003: the code hands it to the waiting caller and
+			// writes nothing (known finding C06/1003-absorbed-no-reply); read callbacks still run
+			wf = append(wf, wantFrame{rid: it.Cmd, ver: join.Ver, bcd: join.BCD, body: it.Body, bodyKnown: true, what: "query 9003"})
+			f := it.Deliv[0].F
+			tag := fmt.Sprintf("%04x.%d", f.ID, f.Serial)
+			if mode == "B" {
+				wantRd = append(wantRd, "H"+tag)
+			}
+			wantRd = append(wantRd, "E"+tag)
+			absorbed = append(absorbed, tag)
 			continue
 		}
 		for _, d := range it.Deliv {
@@ -142,11 +157,16 @@ func direct(c *Ctx, mode, req string, items []RpItem, r *RpResult) {
 				wantRd = append(wantRd, "E"+tag)
 			}
 			if ans, rid, body, known := expect(d); ans {
-				wf = append(wf, wantFrame{rid: rid, ver: f.Ver, bcd: f.BCD, body: body, bodyKnown: known, what: "reply to " + tag, term: d.Data, cb: true})
+				wf = append(wf, wantFrame{rid: rid, ver: f.Ver, bcd: f.BCD, body: body, bodyKnown: known, what: "reply to " + tag, term: d.Data, cb: true,
+					short0801: f.ID == 0x0801 && len(f.Body) < 36})
 			}
 		}
 	}
 	// frames: count, order, type, addressing, numbering, body
+	if len(absorbed) > 0 && len(r.Frames) == len(wf) {
+		viol("1003-absorbed-no-reply", "a complete 0x1003 (HasReply true) that arrives while a 0x9003 query is outstanding is handed to the waiting SendActiveMessage caller and gets no 0x8001",
+			fmt.Sprintf("%d frames, none for %s", len(r.Frames), strings.Join(absorbed, ",")), "exactly one reply for every complete message of a reply-bearing type")
+	}
 	if len(r.Frames) != len(wf) {
 		viol("count", "number of frames written differs from the number of reply-bearing complete messages (+ echoes, commands)",
 			fmt.Sprintf("%d frames", len(r.Frames)), fmt.Sprintf("%d frames", len(wf)))
@@ -173,6 +193,10 @@ func direct(c *Ctx, mode, req string, items []RpItem, r *RpResult) {
 		if f.Frag {
 			viol("frame", fmt.Sprintf("frame %d (%s): fragment bit set without sub-package fields", k, w.what), Hx(r.Frames[k]), "unfragmented reply")
 			break
+		}
+		if w.short0801 && w.bodyKnown && !bytes.Equal(f.Body, w.body) {
+			viol("0801-short-body", fmt.Sprintf("frame %d (%s): an 0x0801 shorter than 36 bytes is answered with the multimedia id of the previous upload (0 on a fresh connection), not with the id in its own first four bytes", k, w.what), Hx(f.Body), Hx(w.body))
+			continue
 		}
 		if w.bodyKnown && !bytes.Equal(f.Body, w.body) {
 			viol("body", fmt.Sprintf("frame %d (%s): reply body differs from the prescribed one", k, w.what), Hx(f.Body), Hx(w.body))
@@ -480,6 +504,10 @@ func (g *gen) conversation(n int, withLockstep bool) []string {
 				f.Body = f.Body[:100]
 			}
 			toks = append(toks, g.barrier(), "F"+Hx(f.Wire()))
+		case k < 96 && withLockstep: // a 0x9003 query left outstanding, answered by the terminal's 0x1003 (absorbed)
+			f := g.frame(0x1003)
+			f.Body = g.rbytes(10)
+			toks = append(toks, g.barrier(), "Q"+Hx(g.rbytes(r.Intn(3)))+":"+Hx(f.Wire()))
 		case k < 98 && withLockstep: // a platform command
 			cmd := append(append([]uint16{}, platformIDs...), 0x8001, 0x8100, 0x8300)[r.Intn(len(platformIDs)+3)]
 			toks = append(toks, g.barrier(), fmt.Sprintf("C%d:%s", cmd, Hx(g.rbytes(r.Intn(40)))))
@@ -588,6 +616,18 @@ func c06(c *Ctx) {
 			f.Body = g.body(id, f.Ver == 1, f.BCD)
 			run([]string{"A", "B"}[rep%2], []string{"F" + Hx(f.Wire()), "F" + Hx(g.frame(replyIDs[g.rng.Intn(len(replyIDs))]).Wire()), g.barrier()}, 0)
 		}
+	}
+	for rep := 0; rep < 4; rep++ { // heartbeat (join), query left outstanding + its 0x1003, another 0x1003 with nothing outstanding
+		hb := g.frame(0x0002)
+		hb.BCD = g.uniquePhone(0x98, hb.Ver == 1)
+		a, b := g.frame(0x1003), g.frame(0x1003)
+		a.Body, b.Body = g.rbytes(10), g.rbytes(10)
+		run([]string{"A", "B"}[rep%2], []string{"B" + Hx(hb.Wire()), "Q-:" + Hx(a.Wire()), "F" + Hx(b.Wire()), g.barrier()}, 0)
+		// two uploads: 36 bytes and more, then one whose body is too short for Parse
+		u1, u2 := g.frame(0x0801), g.frame(0x0801)
+		u1.BCD = g.uniquePhone(0x98, u1.Ver == 1)
+		u1.Body, u2.Body = g.rbytes(36+g.rng.Intn(20)), g.rbytes(4+g.rng.Intn(32))
+		run([]string{"A", "B"}[rep%2], []string{"F" + Hx(u1.Wire()), "F" + Hx(u2.Wire()), g.barrier()}, 0)
 	}
 	c.Count("small scope")
 
